@@ -374,6 +374,60 @@ GEN2(binary)
 static void call_add(const opplan_t* pl, void* const p[], const env_t* e) { vec_znx_add(MOD(e, pl), p[0], pl->b[0].size, pl->b[0].sl, p[1], pl->b[1].size, pl->b[1].sl, p[2], pl->b[2].size, pl->b[2].sl); }
 static void call_sub(const opplan_t* pl, void* const p[], const env_t* e) { vec_znx_sub(MOD(e, pl), p[0], pl->b[0].size, pl->b[0].sl, p[1], pl->b[1].size, pl->b[1].sl, p[2], pl->b[2].size, pl->b[2].sl); }
 
+// --- in-place forms (res is the very same buffer as a): one INOUT vector with max(res, a) limbs
+static void plan_inplace_vec(opplan_t* pl, rng_t* r, const env_t* e) {
+  uint64_t rs = rsz(r, 3), as = rsz(r, 3), bs = rsz(r, 3);
+  pl->u[0] = rs; pl->u[1] = as;
+  B_ZV(pl, R_INOUT, F_I64, 61, e->N, rs > as ? rs : as, rsl(r, e->N));
+  B_ZV(pl, R_IN, F_I64, 61, e->N, bs, rsl(r, e->N));
+  pl->s[0] = rng_sbits(r, 1 + (unsigned)(rng_u64(r) % 62));
+  pl->u[2] = 1 + rng_u64(r) % 62;
+  B_RAW(pl, R_SCRATCH, F_NONE, 0, vec_znx_normalize_base2k_tmp_bytes(e->fft64), 8);
+  SHAPE(pl, "%s", szc(rs, as));
+}
+GEN2(inplace_vec)
+#define IPV(NAME, EXPR)                                                                              \
+  static void call_##NAME(const opplan_t* pl, void* const p[], const env_t* e) {                   \
+    const MODULE* M = MOD(e, pl); int64_t* x = p[0]; const uint64_t sl = pl->b[0].sl, rs = pl->u[0], as = pl->u[1]; \
+    (void)M; (void)x; (void)sl; (void)rs; (void)as; EXPR;                                            \
+  }
+IPV(ip_copy, vec_znx_copy(M, x, rs, sl, x, as, sl))
+IPV(ip_negate, vec_znx_negate(M, x, rs, sl, x, as, sl))
+IPV(ip_rotate, vec_znx_rotate(M, pl->s[0], x, rs, sl, x, as, sl))
+IPV(ip_auto, vec_znx_automorphism(M, pl->s[0] | 1, x, rs, sl, x, as, sl))
+IPV(ip_normalize, vec_znx_normalize_base2k(M, pl->u[2], x, rs < as ? rs : as, sl, x, as, sl, p[2]))
+IPV(ip_add, vec_znx_add(M, x, rs, sl, x, as, sl, p[1], pl->b[1].size, pl->b[1].sl))
+IPV(ip_sub_b, vec_znx_sub(M, x, rs, sl, p[1], pl->b[1].size, pl->b[1].sl, x, as, sl))
+static void plan_inplace_big(opplan_t* pl, rng_t* r, const env_t* e) {
+  uint64_t rs = rsz(r, 3), as = rsz(r, 3), bs = rsz(r, 3);
+  pl->u[0] = rs; pl->u[1] = as; pl->u[2] = bs;
+  B_RAW(pl, R_INOUT, F_I64, 61, bytes_of_vec_znx_big(e->fft64, rs > as ? rs : as), 8);
+  B_RAW(pl, R_IN, F_I64, 61, bytes_of_vec_znx_big(e->fft64, bs), 8);
+  pl->s[0] = rng_sbits(r, 1 + (unsigned)(rng_u64(r) % 62));
+  SHAPE(pl, "%s", szc(rs, as));
+}
+#define IPB(NAME, EXPR) static void call_##NAME(const opplan_t* pl, void* const p[], const env_t* e) { const MODULE* M = e->fft64; uint64_t rs = pl->u[0], as = pl->u[1], bs = pl->u[2]; (void)bs; EXPR; }
+IPB(ipb_add, vec_znx_big_add(M, p[0], rs, p[0], as, p[1], bs))
+IPB(ipb_sub, vec_znx_big_sub(M, p[0], rs, p[1], bs, p[0], as))
+IPB(ipb_rotate, vec_znx_big_rotate(M, pl->s[0], p[0], rs, p[0], as))
+IPB(ipb_auto, vec_znx_big_automorphism(M, pl->s[0] | 1, p[0], rs, p[0], as))
+static void plan_inplace_idft(opplan_t* pl, rng_t* r, const env_t* e) {
+  uint64_t rs = rsz(r, 3), as = rsz(r, 3);
+  pl->u[0] = rs; pl->u[1] = as;
+  B_RAW(pl, R_INOUT, F_DBLINT, 40, bytes_of_vec_znx_dft(e->fft64, rs > as ? rs : as), 8);
+  B_RAW(pl, R_SCRATCH, F_NONE, 0, vec_znx_idft_tmp_bytes(e->fft64), 8);
+  SHAPE(pl, "%s", szc(rs, as));
+}
+static void call_ip_idft(const opplan_t* pl, void* const p[], const env_t* e) { vec_znx_idft(e->fft64, p[0], pl->u[0], p[0], pl->u[1], p[1]); }
+static void plan_inplace_mul(opplan_t* pl, rng_t* r, const env_t* e) {
+  (void)r;
+  B_RAW(pl, R_INOUT, F_DBL, 4, 2 * e->m * 8, 8);
+  B_RAW(pl, R_IN, F_DBL, 4, 2 * e->m * 8, 8);
+}
+static void call_ip_reim_mul(const opplan_t* pl, void* const p[], const env_t* e) { (void)pl; reim_fftvec_mul(e->reim_mul, p[0], p[0], p[1]); }
+static void call_ip_reim_addmul(const opplan_t* pl, void* const p[], const env_t* e) { (void)pl; reim_fftvec_addmul(e->reim_addmul, p[0], p[1], p[0]); }
+static void call_ip_cplx_mul(const opplan_t* pl, void* const p[], const env_t* e) { (void)pl; cplx_fftvec_mul(e->cplx_mul, p[0], p[1], p[0]); }
+
 // --- dft / idft (both module types)
 static uint64_t dft_bytes(const env_t* e, int ntt, uint64_t size) { return ntt ? e->N * 32 * size : bytes_of_vec_znx_dft(e->fft64, size); }
 static uint64_t big_bytes(const env_t* e, int ntt, uint64_t size) { return ntt ? e->N * 16 * size : bytes_of_vec_znx_big(e->fft64, size); }
@@ -923,6 +977,16 @@ const opdef_t OPS[] = {
     {"vec_znx_normalize_base2k", OPF_FFT64, plan_normalize, call_normalize}, {"vec_znx_normalize_base2k@ntt120", OPF_NTT120, NTTV(normalize), call_normalize},
     {"vec_znx_add", OPF_FFT64, plan_binary, call_add}, {"vec_znx_add@ntt120", OPF_NTT120, NTTV(binary), call_add},
     {"vec_znx_sub", OPF_FFT64, plan_binary, call_sub}, {"vec_znx_sub@ntt120", OPF_NTT120, NTTV(binary), call_sub},
+    {"vec_znx_copy(res==a)", OPF_FFT64, plan_inplace_vec, call_ip_copy}, {"vec_znx_negate(res==a)", OPF_FFT64, plan_inplace_vec, call_ip_negate},
+    {"vec_znx_rotate(res==a)", OPF_FFT64, plan_inplace_vec, call_ip_rotate}, {"vec_znx_rotate(res==a)@ntt120", OPF_NTT120, NTTV(inplace_vec), call_ip_rotate},
+    {"vec_znx_automorphism(res==a)", OPF_FFT64, plan_inplace_vec, call_ip_auto}, {"vec_znx_automorphism(res==a)@ntt120", OPF_NTT120, NTTV(inplace_vec), call_ip_auto},
+    {"vec_znx_normalize_base2k(res==a)", OPF_FFT64, plan_inplace_vec, call_ip_normalize},
+    {"vec_znx_add(res==a)", OPF_FFT64, plan_inplace_vec, call_ip_add}, {"vec_znx_sub(res==b)", OPF_FFT64, plan_inplace_vec, call_ip_sub_b},
+    {"vec_znx_big_add(res==a)", OPF_FFT64, plan_inplace_big, call_ipb_add}, {"vec_znx_big_sub(res==b)", OPF_FFT64, plan_inplace_big, call_ipb_sub},
+    {"vec_znx_big_rotate(res==a)", OPF_FFT64, plan_inplace_big, call_ipb_rotate}, {"vec_znx_big_automorphism(res==a)", OPF_FFT64, plan_inplace_big, call_ipb_auto},
+    {"vec_znx_idft(res==a_dft)", OPF_FFT64, plan_inplace_idft, call_ip_idft},
+    {"reim_fftvec_mul(r==a)", OPF_TABLE, plan_inplace_mul, call_ip_reim_mul}, {"reim_fftvec_addmul(r==b)", OPF_TABLE, plan_inplace_mul, call_ip_reim_addmul},
+    {"cplx_fftvec_mul(r==b)", OPF_TABLE, plan_inplace_mul, call_ip_cplx_mul},
     {"vec_znx_dft", OPF_FFT64, plan_dft, call_dft}, {"vec_znx_dft@ntt120", OPF_NTT120, plan_dft_ntt, call_dft},
     {"vec_znx_idft", OPF_FFT64, plan_idft, call_idft}, {"vec_znx_idft@ntt120", OPF_NTT120, plan_idft_ntt, call_idft},
     {"vec_znx_idft_tmp_a", OPF_FFT64, plan_idft_tmp_a, call_idft_tmp_a}, {"vec_znx_idft_tmp_a@ntt120", OPF_NTT120, plan_idft_tmp_a_ntt, call_idft_tmp_a},
